@@ -14,8 +14,9 @@ import (
 //
 // fmt.Sscanf: package fmt's scanner is reflection- and panic/recover-driven and is not interpreted.
 // bfe uses it with exactly two formats, "%14s%s" and "%6s%s" (bfe_util/time.go). sscanfWords is a
-// small executable model of fmt.Sscanf for formats of the shape %<width>s%s written against an
-// abstract input (sscanfInput), so that the very same code runs
+// small executable model of fmt.Sscanf for formats of the shape %<width>s%s or %<width>s%<width2>s
+// (the second width is optional) written against an abstract input (sscanfInput), so that the very
+// same code runs
 //   - natively on concrete bytes (sscanf_model_test.go compares it with the real fmt.Sscanf,
 //     exhaustively on short inputs), and
 //   - symbolically, where every question about an input byte forks the path.
@@ -124,11 +125,13 @@ type sscanfOut struct {
 	words [2][]scSeg
 }
 
-// sscanfWords models fmt.Sscanf(input, "%<wid>s%s", &a, &b): for each of the two verbs, skip white
+// sscanfWords models fmt.Sscanf(input, "%<wid>s%s", &a, &b) and, when wid2 > 0,
+// fmt.Sscanf(input, "%<wid>s%<wid2>s", &a, &b): for each of the two verbs, skip white
 // space (a newline is an error: "unexpected newline"; '\r' is plain white space), fail with io.EOF at
-// the end of input, then read non-space runes — at most wid *runes* for the first verb. Input left
-// over after the second word is ignored, exactly like fmt does.
-func sscanfWords(in sscanfInput, wid int) sscanfOut {
+// the end of input, then read non-space runes — at most wid *runes* for the first verb, at most wid2
+// runes for the second one (wid2 == 0: no limit). Input left over after the second word is ignored,
+// exactly like fmt does (a width is a maximum; fmt does not complain about unread input).
+func sscanfWords(in sscanfInput, wid, wid2 int) sscanfOut {
 	var out sscanfOut
 	n := in.Len()
 	memo := make([]scRune, n)
@@ -159,6 +162,8 @@ func sscanfWords(in sscanfInput, wid int) sscanfOut {
 		limit := 1 << 30
 		if w == 0 {
 			limit = wid
+		} else if wid2 > 0 {
+			limit = wid2
 		}
 		for cnt := 0; p < n && cnt < limit; cnt++ {
 			r := dec(p)
@@ -222,25 +227,37 @@ func (m *Machine) sscanfWordStr(in Str, segs []scSeg) Str {
 	return r
 }
 
-// parseSscanfFormat accepts exactly %<digits>s%s.
-func parseSscanfFormat(f string) (int, bool) {
-	if !strings.HasPrefix(f, "%") || !strings.HasSuffix(f, "s%s") {
-		return 0, false
-	}
-	d := f[1 : len(f)-3]
-	if d == "" {
-		return 0, false
-	}
-	for _, c := range d {
-		if c < '0' || c > '9' {
+// parseSscanfFormat accepts exactly %<digits>s%s and %<digits>s%<digits>s; the second width is 0 when
+// the second verb has none.
+func parseSscanfFormat(f string) (int, int, bool) {
+	width := func(d string, optional bool) (int, bool) {
+		if d == "" {
+			return 0, optional
+		}
+		for _, c := range d {
+			if c < '0' || c > '9' {
+				return 0, false
+			}
+		}
+		w, err := strconv.Atoi(d)
+		if err != nil || w <= 0 || w > 1<<20 {
 			return 0, false
 		}
+		return w, true
 	}
-	w, err := strconv.Atoi(d)
-	if err != nil || w <= 0 || w > 1<<20 {
-		return 0, false
+	if !strings.HasPrefix(f, "%") || !strings.HasSuffix(f, "s") {
+		return 0, 0, false
 	}
-	return w, true
+	parts := strings.Split(f[1:len(f)-1], "s%")
+	if len(parts) != 2 {
+		return 0, 0, false
+	}
+	w1, ok1 := width(parts[0], false)
+	w2, ok2 := width(parts[1], true)
+	if !ok1 || !ok2 {
+		return 0, 0, false
+	}
+	return w1, w2, true
 }
 
 func init() {
@@ -249,10 +266,10 @@ func init() {
 		if !ok {
 			panic(unsupported{"fmt.Sscanf: symbolic format"})
 		}
-		wid, ok := parseSscanfFormat(f)
+		wid, wid2, ok := parseSscanfFormat(f)
 		args, _ := a[2].([]value)
 		if !ok || len(args) != 2 {
-			panic(unsupported{"fmt.Sscanf: only the model for \"%<n>s%s\" with two *string operands exists; format " + strconv.Quote(f)})
+			panic(unsupported{"fmt.Sscanf: only the model for \"%<n>s%s\" / \"%<n>s%<m>s\" with two *string operands exists; format " + strconv.Quote(f)})
 		}
 		var ptrs [2]*value
 		for i, x := range args {
@@ -267,7 +284,7 @@ func init() {
 		}
 		in := a[0].(Str)
 		m.stats.Stubs["fmt.Sscanf(model %Ns%s)"]++
-		out := sscanfWords(sscanfSym{m, in}, wid)
+		out := sscanfWords(sscanfSym{m, in}, wid, wid2)
 		for w := 0; w < out.n; w++ {
 			m.store(ptrs[w], m.strNorm(m.sscanfWordStr(in, out.words[w])))
 		}
